@@ -289,7 +289,7 @@ class TreeExec:
             # public option of Workspace.create_entity: the entity reaches the file later
             # (when a child is saved, or at close)
             g = self._lib(lambda: par.workspace.create_entity(ContainerGroup, save_on_creation=False, entity={"name": nd.name, "parent": par}))
-            self.deferred.append(g)  # a live reference, as the caller of create_entity has one
+            self.keep(g)
         else:
             g = self._create(lambda: ContainerGroup.create(par.workspace, name=nd.name, parent=par, **kw), expect)
         self.uid[nd.idx] = g.uid
